@@ -105,10 +105,10 @@ class MetConfig:
     @property
     def n_timesteps(self) -> int:
         """Number of timesteps in the timeseries."""
-        if isinstance(self.ustar, list):
-            return len(self.ustar)
-        if isinstance(self.wind_speed, list):
-            return len(self.wind_speed)
+        for name in ("ustar", "mol", "wind_speed", "wind_dir"):
+            val = getattr(self, name)
+            if isinstance(val, list):
+                return len(val)
         return 1
 
     def get_step(self, i: int) -> dict:
@@ -149,10 +149,7 @@ class MetConfig:
             if isinstance(val, list):
                 list_fields[name] = len(val)
 
-        if not list_fields:
-            return  # all scalars, fine
-
-        lengths = set(list_fields.values())
+        lengths = set(list_fields.values()) or {1}  # all scalars: one step
         if len(lengths) > 1:
             raise ValueError(
                 f"Met timeseries arrays must all have the same length. "
